@@ -10,6 +10,8 @@ spec:   spec/MediaCache.tla       one request: handler kind, body kind, value/er
         spec/MediaCacheForm.tla   form media: everything urlencode(doseq=True) accepts (dict / sequence of pairs, scalar /
                                   list / tuple values, repeated names) -> wire parameters -> the mapping read back
         spec/MC_MediaCacheForm.tla, spec/MediaCacheFormTrace.tla   its bounded instance and trace judge
+        spec/MediaCacheFresh.tla  across requests: every request parses its own body into an object of its own
+                                  (FreshPerRequest), whatever earlier responders did to theirs; + MC_ / Trace modules
 legs:   M  exhaustive TLC check (complete state graph) + coverage guard + wrong-design switches
         A  every TLC behaviour (stack x content type x body kind x 4 accesses) is run as a whole request
            through the raw WSGI / ASGI drivers under several chunkings; valid bodies are what a real app
@@ -59,8 +61,28 @@ CT = {
     'text': 'text/plain',
     'none': None,
 }
+# content-type parameters change nothing (falcon's JSON handler is documented as UTF-8): charset spellings, other
+# parameters; 'subjson' is a JSONHandler subclass, i.e. the deserialize_async entry point on ASGI instead of the fast path
+CHARSETS = ['ISO-8859-1', 'latin1', 'windows-1252', 'us-ascii', 'utf-16', 'hex', 'bogus', 'UTF-8', 'utf-8', '"iso-8859-1"']
+PARAM_CTS = ['application/json; charset=%s' % c for c in CHARSETS] + \
+            ['application/json; version=2', 'application/json; profile="x"; charset=latin1', 'application/json;charset=ISO-8859-1']
+SUBJSON_CTS = ['application/x-subjson', 'application/x-subjson; charset=ISO-8859-1', 'application/x-subjson; charset=utf-16',
+               'application/x-subjson; charset=hex', 'application/x-subjson; v=1', 'application/x-subjson; charset=windows-1252',
+               'application/x-subjson; charset=us-ascii', 'application/x-subjson; charset=bogus']
+NONASCII = 'caf\u00e9 \u00df\u6f22\u5b57 \U0001F600 \u00ff'
+BLANKS = [b' ', b'\n', b'\r\n', b'\t \n', b'    ', b'\r', b'\n\n']
+
+
+def ct_of(ctk, i):
+    if ctk == 'json_params':
+        return PARAM_CTS[i % len(PARAM_CTS)]
+    if ctk == 'subjson':
+        return SUBJSON_CTS[i % len(SUBJSON_CTS)]
+    return CT[ctk]
+
+
 # more spellings for the random leg: (content type, handler kind)
-CT_RANDOM = [
+CT_RANDOM = [(c, 'json') for c in PARAM_CTS[:7] + SUBJSON_CTS[:4]] + [
     ('application/json', 'json'), ('application/json; charset=utf-8', 'json'), ('application/json;charset=UTF-8', 'json'),
     ('application/json; version=2; charset=utf-8', 'json'), ('application/vnd.api+json', 'json'),
     ('application/vnd.api+json; ext=bulk', 'json'), ('*/*', 'json'), (None, 'json'),
@@ -186,6 +208,9 @@ class Harness:
         def loads(x):
             h.s.loads += 1
             return json.loads(x, object_hook=hook)
+
+        class SubJSON(media.JSONHandler):
+            """a subclass of the JSON handler: same behaviour, but never the optimised (fast path) protocol"""
 
         class CustomHandler(media.BaseHandler):
             """a user's handler class: JSON semantics, and its own exception for bodies it dislikes"""
@@ -336,6 +361,7 @@ class Harness:
                 for opts in (app.req_options, app.resp_options):
                     opts.media_handlers[falcon.MEDIA_JSON] = media.JSONHandler(loads=loads)
                     opts.media_handlers['application/vnd.api+json'] = media.JSONHandler(loads=loads)
+                    opts.media_handlers['application/x-subjson'] = SubJSON(loads=loads)
                     opts.media_handlers['application/x-custom'] = CustomHandler()
             wapp.add_route('/m', WRes())
             ainner.add_route('/m', ARes())
@@ -625,6 +651,132 @@ def leg_form(ctx, H):
     ctx.progress('form legs done: %d medias, %d random' % (len(cases), len(traces)))
 
 
+# ---- across requests: FreshPerRequest (MediaCacheFresh) ------------------------------------------------
+FRESH_KINDS = {
+    # handler kind -> (content type, documents by payload id)
+    'json': ('application/json', {1: {'token': 'abc', 'tags': ['x', 'y'], 'n': {'k': [1]}}, 2: [1, {'a': ['b']}, 'caf\u00e9'], 3: {'only': []}}),
+    'subjson': ('application/x-subjson', {1: {'t': ['p'], 'u': 'v'}, 2: [[0], 'w'], 3: {'z': {'y': 1}}}),
+    'custom': ('application/x-custom', {1: {'c': [1, 2], 'd': 'e'}, 2: [{'f': 'g'}, 2], 3: {'h': [None]}}),
+    'form': ('application/x-www-form-urlencoded', {1: {'token': 'abc', 'tags': ['x', 'y'], 'k': 'v'}, 2: {'a': ['1', '2'], 'b': '\u00e9'},
+                                                   3: {'q': 's t', 'r': ['u', 'v', 'w']}}),
+}
+
+
+def edit_in_place(obj, n):
+    """what a responder may do to the media it was given: pop / insert a key, append to a list"""
+    if isinstance(obj, dict):
+        if obj:
+            k = next(iter(obj))
+            v = obj.pop(k)
+            if isinstance(v, list):
+                v.append('edited%d' % n)
+        obj['edited%d' % n] = 'x'
+        for v in obj.values():
+            if isinstance(v, list):
+                v.append('tail%d' % n)
+    elif isinstance(obj, list):
+        for v in obj:
+            if isinstance(v, (list, dict)):
+                edit_in_place(v, n)
+        obj.append('edited%d' % n)
+
+
+def run_fresh_history(H, kind, events, route):
+    """events: [('get', p) | ('edit', r)]; route(i) -> (stack, custom app?) of the i-th request.
+    -> logged events [op, p / r, fresh, eq] and infos"""
+    import copy
+    ct, docs = FRESH_KINDS[kind]
+    kept, out, infos = [], [], []
+    for i, (op, x) in enumerate(events):
+        if op == 'edit':
+            edit_in_place(kept[x - 1], i)
+            out.append({'op': 'edit', 'r': x, 'p': 0, 'fresh': True, 'eq': True})
+            infos.append('')
+            continue
+        stack, custom = route(len(kept))
+        body = H.fresh_bodies[(kind, x)]
+        evs, wire = H.request(stack, ct, body, [4] if stack == 'asgi' else None, [('get', False), ('media', False)],
+                              copy.deepcopy(docs[x]), True, custom=custom)
+        if len(evs) != 2 or evs[0]['out'] != 'val':
+            out.append({'op': 'get', 'r': 0, 'p': x, 'fresh': False, 'eq': False})
+            infos.append('request %d on %s failed: %r wire %s' % (len(kept) + 1, stack, [(e['out'], e['ek'], e['info']) for e in evs], wire))
+            kept.append(object())
+            continue
+        obj = H.s.first_value
+        out.append({'op': 'get', 'r': 0, 'p': x, 'fresh': all(obj is not k for k in kept), 'eq': bool(evs[0]['eq'])})
+        infos.append('%s%s got %s' % (stack, '/custom-response' if custom else '', evs[0]['info'] or 'the document'))
+        kept.append(obj)
+    return out, infos
+
+
+def leg_fresh(ctx, H):
+    rng = ctx.rng
+    r = ctx.tlc('MC_MediaCacheFresh', 'MC_MediaCacheFresh.cfg', coverage=True, timeout=300, workers=4)
+    ctx.require_coverage(r, ['XRequest', 'XEdit'])
+    rw = ctx.tlc('MC_MediaCacheFresh', 'MC_MediaCacheFreshW.cfg', must_hold=False, count=False, timeout=300, workers=2)
+    if not rw.violated:
+        raise MachineryError('wrong-design switch Memoised=TRUE did not violate FreshPerRequest')
+    # the bodies: what a real app renders from the documents (the same bytes every time a payload is sent)
+    H.fresh_bodies = {}
+    for kind, (ct, docs) in FRESH_KINDS.items():
+        for p, d in docs.items():
+            body, sct, err = H.render('wsgi', ct, d)
+            if err:
+                raise MachineryError('cannot render payload %r: %s' % (d, err))
+            H.fresh_bodies[(kind, p)] = body
+    ra = ctx.tlc('MC_MediaCacheFresh', 'MC_MediaCacheFreshA.cfg', timeout=300, workers=4, count=False)
+    behs = list({digest(j): j for j in ra.json if 'ev' in j}.values())
+    if len(behs) < 400:
+        raise MachineryError('fresh behaviours incomplete: %d' % len(behs))
+    routes = [lambda i: (('wsgi', 'asgi')[i % 2], False), lambda i: (('asgi', 'wsgi')[i % 2], i % 3 == 0),
+              lambda i: ('wsgi', i % 2 == 1), lambda i: ('asgi', i % 2 == 0)]
+    n = 0
+    for bi, b in enumerate(behs):
+        events = [('get', e['p']) if e['op'] == 'get' else ('edit', e['r']) for e in b['ev']]
+        for ki, kind in enumerate(FRESH_KINDS):
+            got, infos = run_fresh_history(H, kind, events, routes[(bi + ki) % 4])
+            n += 1
+            case = {'leg': 'fresh-A', 'handler': kind, 'events': events, 'route': (bi + ki) % 4}
+            ctx.case(case, nontrivial=len(events) >= 2, key=('fresh', bi, kind))
+            for i, (g, w) in enumerate(zip(got, b['ev'])):
+                if g['op'] != 'get':
+                    continue
+                if g['fresh'] != w['fresh']:
+                    ctx.violation('P:shared', dict(case, step=i + 1), 'request %d was handed an object an earlier request holds (%s)' % (i + 1, infos[i]))
+                    break
+                if g['eq'] != w['eq']:
+                    ctx.violation('P:stale', dict(case, step=i + 1), 'media of request %d is not the decoding of its body: %s' % (i + 1, infos[i]))
+                    break
+    ctx.traces_validated += n
+    # ---- B: longer random histories
+    traces, cases = [], []
+    for i in range(ctx.pick(300, 8000)):
+        kind = rng.choice(list(FRESH_KINDS))
+        events, nreq = [], 0
+        for _ in range(rng.randint(2, 12)):
+            if nreq and rng.random() < 0.4:
+                events.append(('edit', rng.randint(1, nreq)))
+            else:
+                events.append(('get', rng.choice((1, 1, 2, 3))))
+                nreq += 1
+        choice = [(rng.choice(('wsgi', 'asgi')), rng.random() < 0.5) for _ in range(nreq + 1)]
+        got, infos = run_fresh_history(H, kind, events, lambda k: choice[k])
+        ctx.case({'leg': 'fresh-B', 'handler': kind, 'events': events}, nontrivial=True, key=('freshb', i))
+        traces.append({'ev': got})
+        cases.append({'leg': 'fresh-B', 'handler': kind, 'events': events, 'route': choice, 'infos': infos})
+    verdicts = ctx.judge('MediaCacheFreshTrace', traces, timeout=900, chunk=4000)
+    for case, v in zip(cases, verdicts):
+        if v == 'ok':
+            continue
+        if v.startswith('H:'):
+            raise MachineryError('harness produced an invalid fresh history: %s' % v)
+        at = int(v.split('@')[1])
+        ctx.violation(v.split('@')[0], case, 'history judged %s: %s' % (v, case['infos'][at - 1] if at else ''))
+    ctx.extra['fresh_histories'] = n
+    ctx.extra['random_fresh_histories'] = len(traces)
+    ctx.progress('fresh legs done: %d histories, %d random' % (n, len(traces)))
+
+
 RESP_KINDS = ('dict', 'falsy', 'list', 'form')
 
 
@@ -817,6 +969,12 @@ def run(ctx):
                        'the scalars (bytes as UTF-8), one string for a name seen once, the list of strings otherwise',
                        'a handler failure that is not a media error (object_hook of JSONHandler(loads=...), a user handler class) is cached '
                        'like any other: identity of the re-raised exception is P there',
+                       'Empty(body) is Len(body) = 0: whitespace-only JSON bodies are undecodable (400 malformed, no default), whitespace '
+                       'around a document is still the document',
+                       'content-type parameters (charset=ISO-8859-1/latin1/windows-1252/us-ascii/utf-16/hex/bogus, version, profile) never '
+                       'change what is parsed; exercised with non-ASCII documents through JSONHandler (ASGI fast path) and a JSONHandler '
+                       'subclass (deserialize / deserialize_async)',
+                       'FreshPerRequest: identity is demanded for container documents (dict / list) only',
                        'every leg runs with the default Response classes and with response_type=<trivial subclass> on both stacks',
                        'whether the first access touches the stream for an empty body is not demanded; later accesses must not',
                        'identity of a re-raised cached error is model detail (D); its kind and status are demanded (P)',
@@ -844,7 +1002,7 @@ def run(ctx):
     tops.sort(key=digest)
     topvals = [v for sh in tops for v in inst_all(sh)]       # null, false, true, 0, "", [], {}, ... every pool scalar
     behs = list({digest(j): j for j in ra.json if 'ev' in j}.values())
-    if len(behs) != 3 * (5 * 5 + 2 * 3 + 4) * 81 or len(docs) < 700 or len(forms) < 200 or len(tops) != 12:
+    if len(behs) != 3 * (7 * 7 + 2 * 3 + 4) * 81 or len(docs) < 700 or len(forms) < 200 or len(tops) != 12:
         raise MachineryError('behaviour export incomplete: %d behaviours, %d docs, %d forms' % (len(behs), len(docs), len(forms)))
     docs.sort(key=digest)
     forms.sort(key=digest)
@@ -854,7 +1012,7 @@ def run(ctx):
     replays = 0
     for bi, b in enumerate(behs):
         stack, ctk, handler, bk, framing = b['stack'], b['ctype'], b['handler'], b['body'], b['framing']
-        ctype = CT[ctk]
+        ctype = ct_of(ctk, bi)
         other = 'asgi' if stack == 'wsgi' else 'wsgi'
         expect, has_expect = None, False
         # the document of this request and its serialisation by a real app (on the other stack)
@@ -873,6 +1031,8 @@ def run(ctx):
                 doc = inst_top(shape, rng)
             nvalid += handler == 'json' and bk == 'valid'
             rstack, rct = (other if bi % 3 else stack), (ctype if handler == 'json' else 'application/json')
+        if ctk in ('json_params', 'subjson', 'json_charset'):
+            doc = [doc, NONASCII]          # parameters must not matter: make sure there is something to get wrong
         if bk == 'hookfail':
             doc = boomify(doc, rng)
         sbody, sct, err = H.render(rstack, rct, doc, custom=bi % 2)
@@ -890,10 +1050,14 @@ def run(ctx):
             body = truncate_json(sbody, rng)
         elif bk == 'hookfail':
             body = sbody
+        elif bk == 'blank':
+            body = BLANKS[bi % len(BLANKS)]
+        elif bk == 'padded':
+            body, expect, has_expect = BLANKS[bi % len(BLANKS)] + sbody + BLANKS[(bi // 7) % len(BLANKS)], doc, True
         else:
             body = badenc_form(sbody, rng) if handler == 'form' else badenc_json(sbody, rng)
         # "the same content type": what the rendering app sent (unless this case is about another one)
-        send_ct = ctype if (handler == 'none' or ctk == 'none' or bk != 'valid') else sct
+        send_ct = ctype if (handler == 'none' or ctk == 'none' or bk not in ('valid', 'padded')) else sct
         calls = [(w['op'], w['d']) for w in b['ev']]
         for ch in chunkings(len(body), rng, nchunk, stack):
             case = dict(case0, body=list(body), chunks=ch, content_type=send_ct)
@@ -929,10 +1093,14 @@ def run(ctx):
             rstack = ('wsgi', 'asgi')[rep % 2 if kind == 'top' else (si + rep) % 2]
             rcustom = bool(rep // 2) if kind == 'top' else bool((si // 3 + rep) % 2)
             qstack = ('wsgi', 'asgi')[(si // 2 + rep) % 2]
-            ctk = rng.choice(('form', 'form_charset')) if isform else rng.choice(('json', 'json_charset', 'vnd_json', 'none'))
-            sbody, sct, err = H.render(rstack, CT[ctk], doc, custom=rcustom)
+            ctk = rng.choice(('form', 'form_charset')) if isform else \
+                rng.choice(('json', 'json_charset', 'vnd_json', 'none', 'json_params', 'subjson', 'json_params', 'subjson'))
+            ctv = ct_of(ctk, si + rep)
+            if ctk in ('json_params', 'subjson') and kind != 'top':
+                doc = {'d': doc, NONASCII: [NONASCII]}
+            sbody, sct, err = H.render(rstack, ctv, doc, custom=rcustom)
             framing = 'chunked' if qstack == 'asgi' and (si + rep) % 4 < 2 else 'length'
-            case = {'leg': 'A-roundtrip', 'render_stack': rstack, 'render_custom_response_type': rcustom, 'stack': qstack, 'framing': framing, 'ctype': CT[ctk], 'doc': doc}
+            case = {'leg': 'A-roundtrip', 'render_stack': rstack, 'render_custom_response_type': rcustom, 'stack': qstack, 'framing': framing, 'ctype': ctv, 'doc': doc}
             if err:
                 ctx.violation('P:serialize', case, err)
                 continue
@@ -961,6 +1129,7 @@ def run(ctx):
     leg_b(ctx, H)
     leg_resp(ctx, H)
     leg_form(ctx, H)
+    leg_fresh(ctx, H)
     probe_deep_nesting(ctx, H)
 
 
@@ -1026,6 +1195,8 @@ def random_job(ctx, H, i):
     ctype, handler = rng.choice(CT_RANDOM)
     rct = ctype if handler != 'none' and ctype not in (None, '*/*') else ('application/json' if handler != 'form' else ctype)
     doc = rand_form(rng) if handler == 'form' else rand_doc(rng, rng.randint(0, 4))
+    if handler == 'json' and ctype and ('charset' in ctype or 'subjson' in ctype):
+        doc = [doc, NONASCII]
     u = rng.random()
     hookfail = handler == 'json' and 0.93 < u
     if hookfail:
@@ -1050,9 +1221,13 @@ def random_job(ctx, H, i):
             body, bk = sbody[:rng.randrange(1, len(sbody))], 'cut'
         else:
             body, bk = badenc_form(sbody, rng), 'badenc'
+    elif u < 0.58:
+        body, bk = rng.choice(BLANKS) * rng.randint(1, 3), 'blank'
+    elif u < 0.66:
+        body, bk, expect, has_expect = rng.choice(BLANKS) + sbody + rng.choice(BLANKS + [b'']), 'padded', doc, True
     else:
-        body = truncate_json(sbody, rng) if u < 0.75 else badenc_json(sbody, rng)
-        bk = 'truncated' if u < 0.75 else 'badenc'
+        body = truncate_json(sbody, rng) if u < 0.8 else badenc_json(sbody, rng)
+        bk = 'truncated' if u < 0.8 else 'badenc'
     calls = []
     for _ in range(rng.choice((1, 2, 2, 3, 3, 4, 5, 7, 9))):
         u = rng.random()
@@ -1087,7 +1262,7 @@ def leg_b(ctx, H):
             bk = 'valid' if ok else bk
             if ok:
                 expect, has_expect = val, True
-            elif bk == 'valid':
+            elif bk in ('valid', 'padded'):
                 raise MachineryError('falcon serialised %r to bytes the trusted decoder rejects: %r' % (doc, body))
         if handler == 'form' and body and bk != 'badenc':
             try:
